@@ -121,13 +121,22 @@ def check_row(s, cfg, m, row, tag, side, call):
             xr_ = np.array(b[0] if side == "x" else a[0], dtype=np.float64)
             lo_, hi_ = s.domain(cfg)
             cands = []
-            for sgn in (1.0, -1.0):
+            import itertools as _it
+
+            if len(xr_) <= 4:
+                # every sign pattern (several coordinates may sit on kinks that need nudging in different directions)
                 for rel in (1e-15, 1e-12):
-                    cands.append(xr_ + sgn * rel * np.maximum(1.0, np.abs(xr_)))
-                    for i in range(len(xr_)):
-                        xn = xr_.copy()
-                        xn[i] += sgn * rel * max(1.0, abs(xn[i]))
-                        cands.append(xn)
+                    for sg in _it.product((-1.0, 0.0, 1.0), repeat=len(xr_)):
+                        if any(sg):
+                            cands.append(xr_ + np.array(sg) * rel * np.maximum(1.0, np.abs(xr_)))
+            else:
+                for sgn in (1.0, -1.0):
+                    for rel in (1e-15, 1e-12):
+                        cands.append(xr_ + sgn * rel * np.maximum(1.0, np.abs(xr_)))
+                        for i in range(len(xr_)):
+                            xn = xr_.copy()
+                            xn[i] += sgn * rel * max(1.0, abs(xn[i]))
+                            cands.append(xn)
             for xn in cands:
                 if lo_ is not None:
                     xn = np.maximum(xn, lo_)
